@@ -90,6 +90,14 @@ def build_topology(spec, variant=0):
         if variant == 1 and j == 0:
             # nonlinear (Michaelis-Menten) rate
             rate = sympy.Symbol('VM') / (sympy.Symbol('KM') + sympy.Function(f'A_{names[a]}')(sympy.Symbol('t')))
+        elif variant == 3 and j == 0:
+            # a rate that is a sum of two parameters (two parallel first-order processes between one pair)
+            rate = sympy.Symbol(f'K_{names[a]}_{names[b]}') + sympy.Symbol('KX')
+        elif variant == 3 and j == 1:
+            rate = (sympy.Symbol(f'Q_{names[a]}_{names[b]}') + sympy.Symbol('QX')) / sympy.Symbol(f'V_{names[a]}')
+        elif variant == 4:
+            # clearance / volume parameterisation: every flow out of a compartment shares its volume
+            rate = sympy.Symbol(f'Q_{min(a, b)}{max(a, b)}') / sympy.Symbol(f'V_{names[a]}')
         else:
             rate = sympy.Symbol(f'K_{names[a]}_{names[b]}')
         cb.add_flow(comps[a], comps[b], Expr(rate))
@@ -97,6 +105,10 @@ def build_topology(spec, variant=0):
     for i, o in enumerate(spec['outs']):
         if o:
             rate = sympy.Symbol(f'KOUT_{names[i]}')
+            if variant == 3:
+                rate = rate + sympy.Symbol('KX')
+            elif variant == 4:
+                rate = sympy.Symbol(f'CL_{names[i]}') / sympy.Symbol(f'V_{names[i]}')
             cb.add_flow(comps[i], output, Expr(rate))
             dec.flows[(names[i], None)] = rate
     return cb, dec
@@ -532,7 +544,9 @@ def main():
     for n in (2, 3):
         for spec in topologies(n):
             if len(spec['edges']) in (1, 2, 3) and spec['dose'] is not None:
-                for variant in (1, 2):
+                for variant in (1, 2, 3, 4):
+                    if variant >= 3 and n == 3 and sum(spec['outs']) != 1:
+                        continue        # sum / shared-symbol rates: n = 3 only with exactly one output flow
                     cases.append(('topo', spec, variant))
     n_topo = len(cases)
     _init()
@@ -553,6 +567,9 @@ def main():
         # quick: the n=3 family is large; keep n<=2 + histories complete and visit n=3 in seeded order within budget
         small = [c for c in cases if c[1]['n'] <= 2] + hist
         big = [c for c in cases if c[1]['n'] == 3]
+        # the rate-shape variants of n = 3 are visited before the plain n = 3 family
+        small += [c for c in big if c[2] >= 3 and len(c[1]['edges']) <= 2]
+        big = [c for c in big if not (c[2] >= 3 and len(c[1]['edges']) <= 2)]
         rnd.shuffle(big)
         order = small + big
     order = order + extra
@@ -609,7 +626,8 @@ def main():
                      'to_compartmental_system', 'Compartment.replace/subs', 'canonical_ode_rhs']
     run.bounds = dict(compartments='n<=3 all digraphs x output subsets x dose placement (thorough also n=4 with <=4 '
                                    'flows, seeded order)',
-                      variants='one Michaelis-Menten rate; zero-order input; lag time + bioavailability',
+                      variants='one Michaelis-Menten rate; zero-order input; lag time + bioavailability; rates that are sums of '
+                               'parameters (K + KX, (Q + QX)/V); clearance/volume rates sharing symbols between flows',
                       histories=f'all op sequences of length <= {depth} from {len(SEEDS)} seeds over {OPS}',
                       outside='n=5,6; histories longer than the bound; conversion back only for systems with <= 4 flows')
     run.assumptions = ['oracle = harness-kept table of declared flows/inputs/doses keyed by compartment name, updated '
